@@ -297,7 +297,8 @@ def on_integer_lattice(x):
 
 def is_truncation_of(series, before_waste, keep):
     """series == floor(before_waste) x keep month by month (what assignment of non-negative floats into an
-    integer array does), and the truncation changed something. Robust to values an ulp away from an integer."""
+    integer array does). Robust to values an ulp away from an integer. Callers use it only after the plain
+    comparison failed (so the truncation did change something, be it 1e-10 of a billion kcal)."""
     series, x = np.asarray(series, float), np.asarray(before_waste, float)
     if series.shape != x.shape or not keep > 0:
         return False
@@ -305,7 +306,7 @@ def is_truncation_of(series, before_waste, keep):
     rq = np.round(q)
     integer = np.abs(q - rq) <= 1e-9 * np.maximum(1.0, np.abs(q))
     floor_of_x = (x - rq > -1e-6) & (x - rq < 1 + 1e-6)
-    return bool(integer.all() and floor_of_x.all() and (np.abs(x - rq) > 1e-6).any())
+    return bool(integer.all() and floor_of_x.all())
 
 
 def _ident(r, **kw):
